@@ -334,6 +334,7 @@ def C14(tier, seed):
                  (":numpy_positions", dict(seg=False, pos_ndarray=True)),
                  (":symbolic_scale", dict(seg=False, scale="symbolic", N=2)),
                  (":descending_node_order", dict(seg=False, node_order="reversed")),
+                 (":via_save_load_methods", dict(seg=True, shape=(2, 1, 2), N=2, entry="methods")),
                  (":seg", dict(seg=True, shape=(2, 1, 2), N=2, pos_ndarray=True)),
                  (":seg:iou_enabled", dict(seg=True, shape=(3, 1, 1), N=3, iou=True)),
                  (":seg:symbolic_scale:uint8", dict(seg=True, shape=(2, 1, 2), N=2, scale="symbolic", seg_dtype="uint8")),
